@@ -114,7 +114,7 @@ func runC11(c *core.Ctx) {
 						if why := helperLenArgs(c, fn, sym); why != "" {
 							bad = append(bad, why)
 						}
-					case declaredTextLength(ms.Len):
+					case declaredTextLength(ms.Len) || (ev.Atoms[sym] != nil && declaredTextLength(ev.Atoms[sym])):
 					case strings.HasPrefix(sym, "len("):
 						// sized by data already held in memory (e.g. the keys of the command line)
 					default:
